@@ -263,6 +263,10 @@ impl<T> OptionParser<T> {
             Err(_) => true,
         };
 
+        // completion requests are answered with candidates, never with a help screen
+        #[cfg(feature = "autocomplete")]
+        let no_args = no_args && args.comp_ref().is_none();
+
         if parser_failed && self.info.help_if_no_args && no_args {
             let buffer = render_help(
                 &args.path,
